@@ -558,6 +558,8 @@ def negotiate_unrestricted(
     result_cx, result_roles = negotiate_as_acceptor(
         non_storage_contexts, ac_contexts, roles
     )
+    # Keep the role selection replies for the non-storage contexts
+    reply_roles = {cast(UID, role.sop_class_uid): role for role in result_roles}
 
     # Accept all storage-like contexts
     for rcx in storage_contexts:
